@@ -21,6 +21,7 @@ import Driver.GroupChk
 import Driver.SemaChk
 import Driver.OnceChk
 import Driver.IoChChk
+import Driver.IoHoldChk
 import Driver.DataRcChk
 import Driver.ApplyChk
 import Driver.SourceChk
@@ -317,6 +318,7 @@ def main (args : List String) : IO UInt32 := do
   | "sema" :: paths => SemaChk.main paths
   | "once" :: paths => OnceChk.main paths
   | "iobar" :: paths => IoChChk.main paths
+  | "iohold" :: paths => IoHoldChk.main paths
   | "datarc" :: paths => DataRcChk.main paths
   | "apply" :: paths => ApplyChk.main paths
   | "source" :: paths => SourceChk.main paths
